@@ -5,7 +5,7 @@ P=$1; shift
 cd /verif
 if ! git -C /repo diff --quiet; then echo "/repo has local changes; refusing"; exit 2; fi
 if ! git -C /repo apply --whitespace=nowarn "$P" 2>/dev/null; then
-  if ! git -C /repo apply --whitespace=nowarn -3 "$P"; then echo "patch does not apply: $P"; git -C /repo checkout -- . ; exit 2; fi
+  if ! git -C /repo apply --whitespace=nowarn -3 "$P"; then echo "patch does not apply: $P"; git -C /repo reset -q; git -C /repo checkout -f HEAD -- . ; exit 2; fi
 fi
 for id in "$@"; do
   ./check $id --tier ${TIER:-quick} > /verif/build/mut-$id.log 2>&1; rc=$?
@@ -13,5 +13,5 @@ for id in "$@"; do
   grep -m3 -A1 '^VIOLATION' /verif/build/mut-$id.log | grep 'why' | cut -c1-300
   grep -m2 'MACHINERY' /verif/build/mut-$id.log
 done
-git -C /repo checkout -- . ; git -C /repo reset -q
+git -C /repo reset -q; git -C /repo checkout -f HEAD -- .
 git -C /repo status --short | head -3
